@@ -89,19 +89,31 @@ import sys, json, random, uuid
 seed = int(sys.argv[1]); _r = random.Random(seed)
 uuid.uuid4 = lambda: uuid.UUID(int=_r.getrandbits(128), version=4)
 import logging; logging.disable(logging.CRITICAL)
+import copy
 import tel2puml.events as ev
+import tel2puml.logic_detection as ld
 from tel2puml.logic_detection import calculate_logic_gates
+cap = {}
+_orig = ld.discover_process_tree_inductive
+def _disc(*a, **k):
+    t = _orig(*a, **k)
+    cap["root"] = copy.deepcopy(t)      # the miner's tree BEFORE the post-processing mutates it
+    return t
+ld.discover_process_tree_inductive = _disc
 def conv(n):
     if n.operator is None:
         return ["tau"] if n.label is None else ["leaf", n.label]
     return [n.operator.value, [conv(c) for c in n.children]]
 for line in sys.stdin:
     fam = json.loads(line)
+    cap.clear()
     try:
         t = calculate_logic_gates({ev.EventSet(s) for s in fam})
         out = {"ok": conv(t)}
     except BaseException as e:
         out = {"err": type(e).__name__ + ": " + str(e)[:120]}
+    if "root" in cap and len(cap["root"].children) > 1:
+        out["miner"] = conv(cap["root"].children[1])
     sys.stdout.write(json.dumps(out) + "\n"); sys.stdout.flush()
 """
 
@@ -142,6 +154,48 @@ def to_gtree(r):
     return (op, [to_gtree(c) for c in r[1]])
 
 
+def coq_ptree(r):
+    if r[0] == "leaf":
+        return f"(PLeaf {int(r[1][1:])})"
+    if r[0] == "tau":
+        return "PTau"
+    op = {"->": "PSeq", "X": "PXor", "+": "PAnd", "O": "POr", "*": "PLoop"}.get(r[0], "POther")
+    return f"(PNode {op} {coq_list([coq_ptree(c) for c in r[1]])})"
+
+
+def post_leg(fams, results):
+    """V.Gate.PostProcess.post (transcription of reduce_process_tree_to_preferred_logic_gates) applied to the captured
+    miner tree must equal the implementation's final tree modulo child order"""
+    rows = []
+    for i, (fam, r) in enumerate(zip(fams, results)):
+        if "ok" in r and "miner" in r:
+            F = coq_list([coq_list([str(int(e[1:])) for e in s]) for s in fam])
+            rows.append(f"({i}%nat, {F}, {coq_ptree(r['miner'])}, {coq_ptree(r['ok'])})")
+    files = []
+    for s in range(0, len(rows), 200):
+        body = ";\n ".join(rows[s:s + 200])
+        files.append((f"P{s}", f"""From Coq Require Import List PArith Bool. Import ListNotations.
+From V Require Import Gate.GateTree Gate.Cover Gate.PostProcess Gate.PostCheck.
+Open Scope positive_scope.
+Definition cases : list (nat * list eset * ptree * ptree) := [
+ {body}].
+Eval vm_compute in (1%nat, map (fun c => fst (fst (fst c))) (filter (fun c => let '(i, F, m, f) := c in negb (post_agrees F m f)) cases)).
+Eval vm_compute in (2%nat, map (fun c => fst (fst (fst c))) (filter (fun c => let '(i, F, m, f) := c in post_hyps_b F m && negb (post_sound_b F f)) cases)).
+Eval vm_compute in (3%nat, map (fun c => fst (fst (fst c))) (filter (fun c => let '(i, F, m, f) := c in post_hyps_b F m) cases)).
+"""))
+    res = common.coq_eval_many(files)
+    dis, thm_bad, hyps, fails = [], [], 0, []
+    for (name, _), (okc, o) in zip(files, res):
+        l1, l2, l3 = (common.parse_nat_list(o, k) for k in "123")
+        if not okc or l1 is None or l2 is None or l3 is None:
+            fails.append((name, o[-500:]))
+            continue
+        dis += l1
+        thm_bad += l2
+        hyps += len(l3)
+    return dict(cases=len(rows), disagreements=dis, theorem_instances=hyps, theorem_instance_failures=thm_bad, coq_failures=fails)
+
+
 def tree_key(t):
     if t[0] in ("leaf", "tau"):
         return repr(t)
@@ -172,6 +226,17 @@ def run(out: common.Outcome, explore: int = 0) -> None:
         fams = [[[f"E{e}" for e in sorted(s)] for s in sorted(outcomes(cases[i][0]), key=sorted)] for i in idxs]
         for i, r in zip(idxs, infer_many(fams, hs, us)):
             res[i] = r
+    # ---- correspondence leg: the post-processing model on the captured miner trees (domain families + random families)
+    all_fams = [[[f"E{e}" for e in sorted(s)] for s in sorted(outcomes(c[0]), key=sorted)] for c in cases if (c[1], c[2]) == seeds[0]]
+    all_res = [res[i] for i, c in enumerate(cases) if (c[1], c[2]) == seeds[0]]
+    nrand = 300 if quick else 3000
+    rfams = []
+    for _ in range(nrand):
+        nev = rnd.choice([3, 4, 5, 6])
+        fam = {frozenset(rnd.sample(range(1, nev + 1), rnd.randint(1, nev))) for _ in range(rnd.randint(1, 6))}
+        rfams.append([[f"E{e}" for e in sorted(s)] for s in sorted(fam, key=sorted)])
+    rres = infer_many(rfams, seeds[0][0], seeds[0][1])
+    pl = post_leg(all_fams + rfams, all_res + rres) if okp else None
     rows, pre = [], {}
     for i, ((t, hs, us), r) in enumerate(zip(cases, res)):
         if "err" in r:
@@ -221,6 +286,13 @@ Eval vm_compute in (3%nat, map (fun c => fst (fst c)) (filter (fun c => let '(i,
             n_viol += 1
             out.violation(dict(kind=kind, key=key, source_tree=tree_key(t), family=[sorted(s) for s in sorted(outcomes(t), key=sorted)],
                                inferred=res[i].get("ok"), error=res[i].get("err"), PYTHONHASHSEED=hs, uuid_seed=us))
+    if okp and pl and (pl["disagreements"] or pl["theorem_instance_failures"] or pl["coq_failures"]) and not out.violations:
+        k = (pl["disagreements"] or pl["theorem_instance_failures"] or [0])[0]
+        fam = (all_fams + rfams)[k]
+        out.violation({"kind": "correspondence-broken",
+                       "relation": "reduce_process_tree_to_preferred_logic_gates on the captured miner tree == V.Gate.PostProcess.post (modulo child order)",
+                       "family": fam, "implementation": (all_res + rres)[k], "leg": {k2: (v if not isinstance(v, list) else v[:5]) for k2, v in pl.items()}},
+                      no_failing_input=True)
     if okp and (coq_fail or notdom) and not out.violations:
         out.violation({"kind": "certificate-evaluation-failed", "coq_failures": coq_fail[:2], "not_in_domain": notdom[:5]}, no_failing_input=True)
     out.coverage.update({
@@ -229,6 +301,8 @@ Eval vm_compute in (3%nat, map (fun c => fst (fst c)) (filter (fun c => let '(i,
         "exhaustive": True, "exhaustive_up_to_events": exhaustive_upto,
         "domain_sizes": sizes, "trees_run": len(dom), "inferences": len(cases), "hash_seeds": [s[0] for s in seeds],
         "failure_kinds": kinds, "failing_keys": sorted(set(failing)),
+        "post_processing_leg": None if not pl else {k2: (v if not isinstance(v, list) else len(v)) for k2, v in pl.items()},
+        "traces_validated_against_impl": pl["cases"] if pl else 0,
         "evaluations": len(cases), "distinct_nontrivial": len({tree_key(c[0]) for c in cases if c[0][0] != "leaf"}),
         "rule": "domain = enum_trees n (Coq, proved sound and complete: all gate trees over exactly n distinct events, depth <= 3, "
                 "operators alternating, one representative per unordered tree), n = 1..4 exhaustively + a seeded sample of n = 5 in the "
